@@ -153,6 +153,9 @@ func c05Scenarios() []e3Scenario {
 		{"nostore-remote-read", nolocal, f("W1 SW W1 SW CMP:1 W1 SW CMP:1 CMP:2 W1 SW CMP:1 CMP:2")},
 		{"reset-midway", keep, f("W1 SW W1 SW RSET W1 SW CMP:1")},
 		{"kill-restart", keep, f("W1 SW W1 S KILL NEW W1 SW CMP:1")},
+		// a compaction whose upload fails (possibly after taking effect) between two successful ones, with level-0
+		// retention in between: cached level maxima, listings and names must still agree afterwards
+		{"compact-fail-then-prune", keep, f("W1 SW W1 SW CMP:1 W1 SW W1 SW CMP:1 RETL0A:4 W1 SW W1 SW CMP:1 CMP:2")},
 	}
 }
 
@@ -162,9 +165,37 @@ func c05(args []string) int {
 	thorough := ev.Tier() == "thorough"
 	deadline := time.Now().Add(ev.Budget(100*time.Second, 40*time.Minute))
 	scs := c05Scenarios()
+	if one := os.Getenv("C05_ONE"); one != "" {
+		// debugging aid: C05_ONE="<scenario>;<call>=<deviation>,..." runs one plan and prints calls and problems
+		parts := strings.SplitN(one, ";", 2)
+		plan := map[int]string{}
+		if len(parts) == 2 && parts[1] != "" {
+			for _, kv := range strings.Split(parts[1], ",") {
+				var i int
+				var d string
+				if _, err := fmt.Sscanf(strings.Replace(kv, "=", " ", 1), "%d %s", &i, &d); err == nil {
+					plan[i] = d
+				}
+			}
+		}
+		for _, sc := range scs {
+			if sc.Name == parts[0] {
+				r := c05Run(sc, plan)
+				for _, p := range r.Points {
+					fmt.Printf("  #%d %s %s %s\n", p.Index, p.Kind, p.Arg, p.Dev)
+				}
+				fmt.Println("trace:", r.Trace)
+				for _, p := range r.Problems {
+					fmt.Println("PROBLEM:", p)
+				}
+				return 0
+			}
+		}
+		return 2
+	}
 	if !thorough {
 		// quick tier: every scenario with every single deviation (about 25 s), then pairs in this order until the budget ends
-		scs = []e3Scenario{scs[6], scs[2], scs[7], scs[0], scs[3], scs[1], scs[4], scs[5]} // small, state-rebuilding scenarios first: they get their pairs done
+		scs = []e3Scenario{scs[6], scs[2], scs[7], scs[0], scs[3], scs[8], scs[1], scs[4], scs[5]} // small, state-rebuilding scenarios first: they get their pairs done
 	}
 	type job struct {
 		sc   e3Scenario
@@ -372,8 +403,8 @@ func c05(args []string) int {
 		},
 		Coverage: map[string]any{
 			"evaluations": evals, "distinct_nontrivial": len(outcomes),
-			"rule":        "deviation-bounded enumeration: for each scenario every client call is numbered; all runs with 0 deviations, every single deviation of the call's menu at every call (quick+thorough), every pair of deviations with the second point re-derived from the run under the first (thorough); oracle after EVERY client call: no hole in remote level-0, restore(latest) succeeds and equals a committed source state; at every acknowledgement: remote level-0 max >= local TXID and page-exact restore; after the fault-free suffix: acknowledged, page-exact, no gap in levels >= 1; distinct = (acks, failed ops, replica shape) classes",
-			"samples":     samples, "exhaustive": exhaustive, "quick_pairs_complete_for": pairsComplete, "scenarios": reports, "deviation_runs": devRuns,
+			"rule":    "deviation-bounded enumeration: for each scenario every client call is numbered; all runs with 0 deviations, every single deviation of the call's menu at every call (quick+thorough), every pair of deviations with the second point re-derived from the run under the first (thorough); oracle after EVERY client call: no hole in remote level-0, restore(latest) succeeds and equals a committed source state; at every acknowledgement: remote level-0 max >= local TXID and page-exact restore; after the fault-free suffix: acknowledged, page-exact, no gap in levels >= 1; distinct = (acks, failed ops, replica shape) classes",
+			"samples": samples, "exhaustive": exhaustive, "quick_pairs_complete_for": pairsComplete, "scenarios": reports, "deviation_runs": devRuns,
 		}}
 	if err := ev.Write(e); err != nil {
 		fmt.Fprintln(os.Stderr, err)
